@@ -782,6 +782,72 @@ fn c01_residual_assembly_two_partitions() {
     kani::cover!(c);
 }
 
+// ======================================================================== C07: consumers of accepted boundary values
+fn sum_abs_stub<const N: usize>(data: &[i32]) -> f32
+where
+    simd::LaneCount<N>: simd::SupportedLaneCount,
+{
+    // the slice has been formed (that is the part under test); its float sum is irrelevant
+    let _n = data.len();
+    let v: f32 = kani::any();
+    kani::assume(v >= 0.0 && v <= 1.0e12);
+    v
+}
+
+fn entropy_index_case<const N: usize>() -> bool {
+    let errors = [0i32; N];
+    let warmup: usize = kani::any();
+    kani::assume(warmup <= 4);
+    let partitions: usize = kani::any();
+    kani::assume(partitions >= 1 && partitions <= 64);
+    let _bits = estimate_entropy(&errors, warmup, partitions);
+    partitions == 64 && warmup == 4
+}
+
+//@ prop: C07
+//@ drives: coding::estimate_entropy (the consumer of `fixed.order_sel = ApproxEnt { partitions }`): partition sizing, the per-partition slice bounds and the warm-up handling
+//@ bound: every accepted partition count 1..=64 and every fixed-predictor order 0..=4 as warm-up, for an error vector of 9 samples (the index arithmetic does not depend on the block being >= 64 samples: with 9 samples partitions are shorter than the warm-up from 3 partitions on and the trailing partitions are empty from 10 on - the situations a 64..192-sample block meets with 22..64 partitions)
+//@ asserts: no panic (index out of range, subtraction overflow, division by zero) for any accepted configuration value - the second half of C07 for this field
+//@ stubs: arrayutils::find_sum_abs_f32 -> any finite non-negative f32 (the float value of the estimate is irrelevant to the property; the float analysis is outside every claim, DESIGN 4.3)
+#[kani::proof]
+#[kani::unwind(67)]
+#[kani::stub(crate::arrayutils::find_sum_abs_f32, sum_abs_stub)]
+fn c07_estimate_entropy_accepted_partitions_never_panic() {
+    let c = entropy_index_case::<9>();
+    kani::cover!(c);
+}
+
+// ======================================================================== C17: stream-level entry point (single-thread)
+//@ prop: C17
+//@ features: nopar
+//@ drives: coding::encode_with_fixed_block_size (single-thread path: Stream::new, FrameBuf::with_size block-size validation before anything is read or allocated)
+//@ bound: every block-size argument outside 32..=32767 (free usize), a valid mono 16-bit byte source, a verified default configuration with multithread = false
+//@ asserts: the call returns Err - it does not panic, and nothing is read from the source
+//@ stubs: alloc::fmt::format -> empty string
+#[kani::proof]
+#[kani::unwind(8)]
+#[kani::stub(alloc::fmt::format, fmt_stub)]
+fn c17_stream_entry_block_size_argument() {
+    let mut cfg = config::Encoder::default();
+    cfg.multithread = false;
+    let cfg = match crate::error::Verify::into_verified(cfg) {
+        Ok(c) => c,
+        Err(e) => {
+            std::mem::forget(e);
+            assert!(false);
+            return;
+        }
+    };
+    let bs: usize = kani::any();
+    kani::assume(bs < 32 || bs > 32767);
+    let r = encode_with_fixed_block_size(&cfg, ZeroByteSource { remaining: 40 }, bs);
+    let is_err = r.is_err();
+    std::mem::forget(r);
+    std::mem::forget(cfg);
+    assert!(is_err);
+    kani::cover!(bs == 40000);
+}
+
 // ======================================================================== C17: frame-level entry point
 //@ prop: C17
 //@ drives: coding::encode_fixed_size_frame (frame-number check, FrameBuf::verify_samples), encode_frame, FrameHeader::set_frame_offset
